@@ -157,6 +157,8 @@ def binop(st: State, op: ast.operator, a: Any, b: Any) -> Any:
         if isinstance(op, ast.Add):
             return XReal(z3.simplify(z3.Or(xa.isinf, xb.isinf)), z3.simplify(xa.v + xb.v))
         raise EngineError(f"extended-real operation {type(op).__name__}")
+    if isinstance(op, (ast.Mult, ast.Mod, ast.Add)) and (isinstance(a, str) or isinstance(b, str)) and not (is_byteslike(a) or is_byteslike(b)):
+        return OpaqueStr()  # text building (log messages): content not modelled
     if isinstance(op, ast.Add):
         if is_byteslike(a) and is_byteslike(b):
             return z3.Concat(as_bytes(st, a), as_bytes(st, b))
